@@ -142,6 +142,56 @@ func c02Scenarios() []scenario {
 			}
 			return w, err
 		}},
+		{name: "reorg-batch-3-sparse", reorg: true, build: func(t fataler) (*World, error) {
+			// only the blocks that get orphaned carry rows; the replacement is empty,
+			// so nothing written after the unwind can collide with what should have been deleted
+			node := sim.NewNode(sim.NewChain())
+			for i := 1; i <= 6; i++ {
+				if i >= 5 {
+					node.Chain.Append(xferTxs(i))
+				} else {
+					node.Chain.Append(nil)
+				}
+			}
+			w, err := NewWorld(t, []*SourceCfg{{Name: "src1", ChainID: 1, Batch: 3, Conc: 1, Node: node}}, []*refmodel.Decl{xferDecl("xfer", 1, false)})
+			if err == nil {
+				stepN(w, 0, 2)
+				node.Lock()
+				node.Chain.Reorg(5, [][]sim.Tx{nil, nil, nil, nil})
+				node.Unlock()
+				w.Restart()
+			}
+			return w, err
+		}},
+		{name: "reorg-batch-2-dense-positions", reorg: true, build: func(t fataler) (*World, error) {
+			// the head grew one block at a time, so every height has a recorded
+			// position although batch_size is 2; after the unwind the step lands on a
+			// height that has no position yet
+			node := sim.NewNode(sim.NewChain())
+			node.Chain.Append(nil)
+			w, err := NewWorld(t, []*SourceCfg{{Name: "src1", ChainID: 1, Batch: 2, Conc: 1, Node: node}}, []*refmodel.Decl{xferDecl("xfer", 1, false)})
+			if err != nil {
+				return w, err
+			}
+			for i := 2; i <= 6; i++ {
+				w.Restart() // no cached head
+				w.Step(w.Pairs[0])
+				node.Lock()
+				if i == 6 {
+					node.Chain.Append(xferTxs(i))
+				} else {
+					node.Chain.Append(nil)
+				}
+				node.Unlock()
+			}
+			w.Restart()
+			w.Step(w.Pairs[0])
+			node.Lock()
+			node.Chain.Reorg(6, [][]sim.Tx{nil, nil, nil})
+			node.Unlock()
+			w.Restart()
+			return w, err
+		}},
 		{name: "reference-lookup", target: 1, build: func(t fataler) (*World, error) {
 			ref := simpleTxDecl("reftx", 1)
 			ref.Block = append(ref.Block, refmodel.BlockField{Name: "tx_signer", Column: "tx_signer"})
